@@ -120,6 +120,9 @@ pub fn common_labels(case: &PlanCase, trace: &Trace, ctx: &mut Ctx) {
     if trace.rec.cap_hit {
         ctx.label("query-cap-hit");
     }
+    if case.raw_space {
+        ctx.label("planned-on-the-unwrapped-space");
+    }
 }
 
 fn had_rejection(trace: &Trace) -> bool {
@@ -220,6 +223,7 @@ impl Prop for C01 {
             histories: ch.prob(0.25),
             p_world2: 0.6,
             p_retune: 0.1,
+            p_raw_space: 0.2,
             ..Default::default()
         };
         gen_plan_case(ch, &prof)
@@ -387,6 +391,7 @@ impl Prop for C02 {
             budget_scale: 0.6,
             p_odd_start: 0.2,
             p_retune: 0.1,
+            p_raw_space: 0.2,
             ..Default::default()
         };
         let mut c = gen_plan_case(ch, &prof);
@@ -534,6 +539,7 @@ impl Prop for C03 {
             p_nonconvex: 0.4,
             p_prm_requery: 0.4,
             p_retune: 0.25,
+            p_raw_space: 0.3,
             ..Default::default()
         };
         gen_plan_case(ch, &prof)
@@ -562,6 +568,7 @@ impl Prop for C03Star {
             max_obst: 6,
             big_radius: true,
             p_nonconvex: 0.2,
+            p_raw_space: 0.3,
             ..Default::default()
         };
         let mut c = gen_plan_case(ch, &prof);
@@ -708,6 +715,8 @@ impl Prop for C04 {
             // its own, tighter space
             histories: ch.prob(0.3),
             p_space2: 0.6,
+            // (precondition of C04: goal samples in bounds)
+            p_outside_target: 0.0,
             ..Default::default()
         };
         gen_plan_case(ch, &prof)
@@ -796,6 +805,7 @@ impl Prop for C05 {
             p_so3_signflip: 0.15,
             big_radius: ch.prob(0.5),
             p_retune: 0.2,
+            p_raw_space: 0.3,
             ..Default::default()
         };
         gen_plan_case(ch, &prof)
